@@ -143,6 +143,13 @@ func TestC11_FullPath(t *testing.T) {
 	rapid.Check(t, func(rt *rapid.T) {
 		d := c11Decl(rt)
 		pool := gen.NewPool()
+		filtered := false
+		if rapid.IntRange(0, 2).Draw(rt, "withfilters") == 0 {
+			// a filter decides which rows exist, never what a stored column holds
+			// (abi_idx stays the position of the element in its array)
+			gen.GenFilters(rt, d, pool)
+			filtered = len(d.Filters) > 0
+		}
 		co := gen.ChainOpts{MaxTxs: 2, MaxLogs: 3, MaxTraces: 2, Pool: pool, Values: gen.ValueOpts{MaxDynLen: 3, MaxBytes: 40}, EveryBlockTraced: d.Kind() == "trace"}
 		if d.Event != nil {
 			co.Events = []*refmodel.Event{d.Event}
@@ -187,7 +194,7 @@ func TestC11_FullPath(t *testing.T) {
 			rt.Fatalf("VERIF-VIOLATION property=C11 %s\n %s", v, desc())
 		}
 		ub, bf6 := c11Stats(d)
-		ev.Case(ub || neg || bf6, desc(), fmt.Sprintf("unselBeforeSel=%v", ub), fmt.Sprintf("negative=%v", neg), fmt.Sprintf("blockFields>=6=%v", bf6), "kind="+d.Kind())
+		ev.Case(ub || neg || bf6, desc(), fmt.Sprintf("unselBeforeSel=%v", ub), fmt.Sprintf("negative=%v", neg), fmt.Sprintf("blockFields>=6=%v", bf6), fmt.Sprintf("inputFilters=%v", filtered), "kind="+d.Kind())
 		if (ub || neg) && ev.WantSample(3) {
 			ev.Sample(3, desc())
 		}
